@@ -159,17 +159,35 @@ Proof. exact qmark_ok_l. Qed.
 Print Assumptions qmark_ok_yields_payload_partial.
 
 (* link d+1 of a chain of any length fails (any payload, also ""), whatever the contexts of the links above it
-   (declaration, assignment, return operand, binary operand, expression statement): the transcript is exactly the
+   (declaration, assignment, return operand, binary operand, expression statement) and whether they apply ? to the
+   call or to a variable declared from it (side condition above_ok, discharged below): the transcript is exactly the
    d+1 `enter` lines - no statement after any ? runs - and the outermost function returns the very stored value
    the failing link built. Missing (not modelled, recorded finding): e? inside println/call arguments *)
-Theorem qmark_err_returns_same_partial : forall ls k okp d i, (d < List.length ls)%nat ->
+Theorem qmark_err_returns_same_partial : forall ls k okp d i, (d < List.length ls)%nat -> above_ok k ls d ->
   m_chain k okp (i + d) i ls =
     (enters i (S d), match nth_error ls d with Some l => inl (encode (fail_cval k l)) | None => inr XUnmodelled end).
 Proof. exact qmark_err_l. Qed.
 Print Assumptions qmark_err_returns_same_partial.
 
+(* the side condition above_ok (the operand form of every link above the failing one keeps the failing value) holds
+   whenever all those links apply ? to the call itself, and - for operands that are variables declared from the call -
+   whenever the chain is an Option chain or the failing payload is an integer. Missing: Err(string) read through a
+   variable (recorded finding C13-decl-from-call-drops-string, witness below) *)
+Theorem qmark_err_side_condition :
+  (forall k ls d, (forall l, In l ls -> l_opnd l = OpCall) -> above_ok k ls d) /\
+  (forall k ls d, (k = KOption \/ forall lf, nth_error ls d = Some lf -> is_strp (l_err lf) = false) -> above_ok k ls d).
+Proof. exact (conj above_ok_calls above_ok_nonstring). Qed.
+Print Assumptions qmark_err_side_condition.
+
+Theorem qmark_err_returns_same_refuted_variable_string :
+  let p := mkQ KResult [mkL QDecl (PInt 1) OpVar; mkL QDecl (PStr (s2l "e2")) OpCall] (PInt 5) 2 in
+  m_run_q p = mkR [EEnter 1; EEnter 2; EArm 1 (VInt 0); EAfter] XOk /\
+  s_run_q p = mkR [EEnter 1; EEnter 2; EArm 1 (VStr (s2l "e2")); EAfter] XOk.
+Proof. exact qmark_variable_string_refuted_l. Qed.
+Print Assumptions qmark_err_returns_same_refuted_variable_string.
+
 (* ... and that transcript is a prefix of the transcript of the run in which nobody fails *)
-Theorem qmark_err_transcript_is_prefix : forall ls k z d i sel0, (d < List.length ls)%nat ->
+Theorem qmark_err_transcript_is_prefix : forall ls k z d i sel0, (d < List.length ls)%nat -> above_ok k ls d ->
   existsb is_qstmt ls = false ->
   (forall d', (d' < List.length ls)%nat -> sel0 <> (i + d')%nat) ->
   exists rest, fst (m_chain k (PInt z) sel0 i ls) = fst (m_chain k (PInt z) (i + d) i ls) ++ rest.
@@ -183,7 +201,7 @@ Print Assumptions qmark_chain_refines_spec_partial.
 
 (* DESIGN.md section 7 #24 *)
 Theorem qmark_ok_yields_payload_refuted :
-  let p := mkQ KResult [mkL QDecl (PStr (s2l "e")); mkL QDecl (PStr (s2l "e"))] (PStr (s2l "abc")) 0 in
+  let p := mkQ KResult [mkL QDecl (PStr (s2l "e")) OpCall; mkL QDecl (PStr (s2l "e")) OpCall] (PStr (s2l "abc")) 0 in
   m_run_q p = mkR [EEnter 1; EEnter 2; EEnter 2; EPost 1 (VStr []); EArm 0 (VInt 0); EAfter] XOk /\
   s_run_q p = mkR [EEnter 1; EEnter 2; EPost 1 (VStr (s2l "abc")); EArm 0 (VStr (s2l "abc")); EAfter] XOk.
 Proof. exact qmark_string_refuted_l. Qed.
@@ -244,7 +262,7 @@ Example safe_a_example :
 Proof. vm_compute. split; reflexivity. Qed.
 
 Example safe_q_example :
-  let p := mkQ KResult [mkL QStmt (PStr (s2l "e1")); mkL QRet (PInt 2); mkL QStmt (PInt 3); mkL QAsg (PStr (s2l "e4"))] (PInt 7) 3 in
+  let p := mkQ KResult [mkL QStmt (PInt 1) OpCall; mkL QRet (PInt 2) OpVar; mkL QStmt (PInt 3) OpVar; mkL QAsg (PInt 4) OpCall] (PInt 7) 3 in
   safe_q p = true /\ m_run_q p = mkR [EEnter 1; EEnter 2; EEnter 3; EArm 1 (VInt 3); EAfter] XOk.
 Proof. vm_compute. split; reflexivity. Qed.
 
